@@ -18,6 +18,7 @@
   inside lists of individuals.
 -/
 import Gedcom.Model.Calendar
+import Gedcom.Model.DateParse
 import Gedcom.Generated.Similarity
 namespace Gedcom.Sim
 open Gedcom
@@ -127,8 +128,16 @@ def cleanSpace (s : Str) : Str := trimSpaces (collapseRuns s)
 
 def cleanName (s : Str) : Str := cleanSpace (normalise s 0)
 
+/-- the two strings `StringSimilarity` hands to `JaroWinkler`: the normalised names, or — when
+    nothing is left of either (names written entirely outside a-z0-9: another script, punctuation
+    only) — the names as written, after `CleanSpace` (the Unicode-aware one of util.go, modelled
+    in DateParse.lean).  Since the fix "a name written outside a-z and 0-9 is similar to itself". -/
+def comparedNames (a b : Str) : Str × Str :=
+  if cleanName a = [] ∧ cleanName b = [] then (Gedcom.cleanSpace a, Gedcom.cleanSpace b)
+  else (cleanName a, cleanName b)
+
 def stringSimilarity (a b : Str) (boost : Rat) (prefixSize : Nat) : Rat :=
-  jaroWinkler (cleanName a) (cleanName b) boost prefixSize
+  jaroWinkler (comparedNames a b).1 (comparedNames a b).2 boost prefixSize
 
 /-! ## Dates (date_range.go:213, date_node.go:73) -/
 
